@@ -5,8 +5,8 @@ from harness import runner, tlc, isagen
 
 INV = ['SelectedIsLeastAccepting', 'RegisterNeverNumeric', 'NoAcceptingMeansRejected', 'ValueNeverSelects', 'Emit']
 TXT = {'r': 'r1', 'r2': 'r2', '[r]': '[r1]', '[r+n]': '[r1+5]', '[n]': '[5]', '[[n]]': '[[5]]', 'r+n': 'r1+5', 'key': 'kx',
-       '++r': '++r1', 'r+key': 'r1+kx', 'void': '', 'bignum': '300', 'num': '5', 'lab': 'lab', '{n}': '{5}', 'hexa': '$a', 'chra': "'a'", 'r++': 'r1++', '@r': '@r1', '-[r]': '-[r1]'}
-VAL = {'bignum': 300, 'num': 5, 'lab': 9, 'key': 7, '{n}': 5, 'hexa': 10, 'chra': 97}
+       '++r': '++r1', 'r+key': 'r1+kx', 'void': '', 'bignum': '300', 'num': '5', 'lab': 'lab', '{n}': '{5}', 'hexa': '$a', 'chra': "'a'", 'r++': 'r1++', '@r': '@r1', '-[r]': '-[r1]', 'key+n': 'kx+1', 'keyjunk': 'kx lab'}
+VAL = {'bignum': 300, 'num': 5, 'lab': 9, 'key': 7, 'key+n': 8, '{n}': 5, 'hexa': 10, 'chra': 97}
 
 
 def oname(aid):
